@@ -51,7 +51,7 @@ func runHistory(sp spec, tmp string) (res *result, err error) {
 	grace, phase := 1000*time.Hour, 300*time.Millisecond
 	kyber := strings.HasPrefix(sp.kind, "kyber")
 	if kyber {
-		grace = 150 * time.Millisecond
+		grace = 500 * time.Millisecond
 	}
 	w, err := newWorld(nNodes, 1, grace, phase, tmp, sp.id)
 	if err != nil {
